@@ -108,6 +108,17 @@ def parse_case_output(lines):
                 w = p.split()
                 mix["cells"][int(w[0])] = {int(x.split("=")[0]): unhexd(x.split("=")[1]) for x in w[1:]}
             r["mix"] = mix
+        elif l.startswith("SMIX "):
+            if l.strip() == "SMIX none":
+                continue
+            parts = l.split(" | ")
+            head = dict(x.split("=") for x in parts[0].split()[1:])
+            sm = {"stag": int(head["stag"]), "exch": unhexd(head["exch"]), "thm": unhexd(head["thm"]), "thim": unhexd(head["thim"]),
+                  "cells": {}}
+            for p in parts[1:]:
+                w = p.split()
+                sm["cells"][int(w[0])] = {int(x.split("=")[0]): unhexd(x.split("=")[1]) for x in w[1:]}
+            r["smix"] = sm
         elif l.startswith("CB"):
             r["cb"] = []
             for x in l.split()[1:]:
@@ -130,6 +141,14 @@ def parse_case_output(lines):
                         row.append(None)
                 rows.append(row)
             r["sel"][nu] = rows
+        elif l.startswith("FINAL "):
+            w = l.split()
+            d = {"s": {}, "x": {}, "p": {}}
+            for it in w[2:]:
+                kind, rest = it.split(":", 1)
+                name, hv = rest.rsplit("=", 1)
+                d[kind][name] = d[kind].get(name, 0.0) + unhexd(hv)
+            r.setdefault("final", {})[int(w[1])] = d
         elif l.startswith("WARN "):
             h = l.split()[1] if len(l.split()) > 1 else "-"
             r["warn"] = bytes.fromhex(h).decode("latin1") if h != "-" else ""
@@ -339,6 +358,53 @@ def judge_modelled(ctx, case, res, plan, model_lines, hist):
     return probs
 
 
+_PHASE_FORMULA = {}
+
+
+def phase_elements(name):
+    """element counts of a pure phase, read from the database text (first formula after the phase name in PHASES)"""
+    import re
+    if name not in _PHASE_FORMULA:
+        txt = open(DB, encoding="latin1").read()
+        ph = txt[txt.index("\nPHASES"):]
+        m = re.search(r"^%s\s*\n\s*(\S+)\s*=" % re.escape(name), ph, re.M)
+        counts = {}
+        for el, k in re.findall(r"([A-Z][a-z]?)(\d*\.?\d*)", m.group(1)):
+            counts[el] = counts.get(el, 0.0) + (float(k) if k else 1.0)
+        _PHASE_FORMULA[name] = counts
+    return _PHASE_FORMULA[name]
+
+
+def oracle_final_state(case, res, by, hist):
+    """reactive solids: the per-cell inventory punched at the last step through the BASIC functions (TOTMOLE, SYS, EQUI)
+    equals the inventory of the entities the engine has stored after the run (solution totals + exchanger totals +
+    pure-phase moles x formula read from the database) — ties the observation used by the conservation oracles to
+    the stored state, read independently"""
+    fin = res.get("final")
+    if not fin or not by:
+        return []
+    last = max(by)
+    if last < 1:
+        return []
+    bad = []
+    fs = inv_funcs(case)
+    for i in range(1, case["n"] + 1):
+        if i not in by[last] or i not in fin:
+            continue
+        st = fin[i]
+        for name, f in fs.items():
+            el = name[4:]
+            stored = sum(v for k, v in st["s"].items() if k == el or k.startswith(el + "("))
+            stored += st["x"].get(el, 0.0)
+            for ph, mol in st["p"].items():
+                stored += mol * phase_elements(ph).get(el, 0.0)
+            got = f(by[last][i][-1])
+            hist["final_state_values_compared"] += 1
+            if abs(got - stored) > 1e-9 * max(abs(got), abs(stored), 1e-12):
+                bad.append((name, i, got, stored))
+    return bad
+
+
 def inv_funcs(case):
     """inventory quantities of a cell row: dissolved (+ solids when present)"""
     fs = {}
@@ -369,28 +435,28 @@ BAND = {"stretches_over_1e-9_within_band": 0, "max_drift": 0.0, "max_drift_per_s
         "by_speciations": {}}
 
 
-def oracle_inventory(case, by, cells, shifts, flux=None, kstep=1, hist=None):
+def oracle_inventory(case, by, cells, shifts, flux=None, kstep=1, hist=None, start=0):
     """conservation: flux=None → closed column, inventory constant; flux=(inflow cell, outflow cell) → per step
     inventory(t) = inventory(t−1) + dissolved(inflow solution) − dissolved(outflow cell at t−1).
     Every stretch is judged against the property's 1e-9. Entries: (name, t, expected, got, relative drift, K) with
     K = speciations per cell between the two compared states (kstep = nmix + 1 per transport step)."""
     bad = []
     fs = inv_funcs(case)
-    if 0 not in by or any(c not in by[0] for c in cells):
+    if start not in by or any(c not in by[start] for c in cells) or 0 not in by:
         return None
     for name, f in fs.items():
-        inv0 = col_inventory(by, 0, cells, f)
+        inv0 = col_inventory(by, start, cells, f)
         # scale: the inventory, the largest cell value, and what the boundary solutions can bring in
         q0 = name if name in QUANT else "m_" + name[4:]
         sc = charge_scale(by, list(by[0])) * len(cells) if name == "cb" else \
-            max(abs(inv0), max(abs(f(by[0][c][-1])) for c in cells), max(abs(d[-1].get(q0, 0.0)) for d in by[0].values()))
+            max(abs(inv0), max(abs(f(by[start][c][-1])) for c in cells), max(abs(d[-1].get(q0, 0.0) or 0.0) for d in by[0].values()))
         prev = inv0
-        for t in range(1, shifts + 1):
+        for t in range(start + 1, shifts + 1):
             if t not in by or any(c not in by[t] for c in cells):
                 return None
             inv = col_inventory(by, t, cells, f)
             exp = prev
-            k = t * kstep
+            k = (t - start) * kstep
             if flux is not None:
                 cin, cout = flux
                 q = name if name in QUANT else "m_" + name[4:]
@@ -451,10 +517,21 @@ def direct_oracles(case, res, hist, code_nmix, plan=None):
     shifts = case["shifts"]
     allq = QUANT + ["water"] + ["c_" + e for e in gt.ELEMENTS]
     if case["kind"] == "advection":
-        bad = oracle_shift(by, n, 1, shifts, allq)
-        hist["oracle_shift"] += 1
-        if bad:
-            out.append(("oracle-shift", bad[:3]))
+        if not case.get("solids"):
+            bad = oracle_shift(by, n, 1, shifts, allq)
+            hist["oracle_shift"] += 1
+            if bad:
+                out.append(("oracle-shift", bad[:3]))
+        else:
+            # reactive solids: inventory incl. solids changes by what the inflow solution brings and the last cell loses
+            bad = oracle_inventory(case, by, list(range(1, n + 1)), shifts, (0, n), 1, hist, start=1)
+            if bad is not None:
+                hist["oracle_flux_balance_advection_solids"] += 1
+                if bad:
+                    out.append(classify_conservation(bad, "oracle-flux-balance"))
+            bad = oracle_final_state(case, res, by, hist)
+            if bad:
+                out.append(("oracle-final-state", bad[:3]))
         return out
     su = reader_setup(case)
     plain = not case.get("mcd") and not case.get("stag") and not case.get("solids")
@@ -509,6 +586,10 @@ def direct_oracles(case, res, hist, code_nmix, plan=None):
                 hist["oracle_flux_balance" + ("_mixed_zero_disp" if mixed_zero else "")] += 1
                 if bad:
                     out.append(classify_conservation(bad, "oracle-flux-balance"))
+    if case.get("solids"):
+        bad = oracle_final_state(case, res, by, hist)
+        if bad:
+            out.append(("oracle-final-state", bad[:3]))
     return out
 
 
@@ -697,6 +778,128 @@ class Hist(dict):
         return 0
 
 
+def stag_modelled(c):
+    """stagnant layer in the exchange-factor form, single diffusion coefficient, no solids: inside the model"""
+    st = c.get("stag")
+    return bool(st and st.get("n") == 1 and ("exch" in st or "mix" in st) and not c.get("mcd") and not c.get("implicit")
+                and not c.get("solids"))
+
+
+def stag_model_text(case, res):
+    """pmodel lines for a stagnant case: set-up, exchange fractions from the engine's own step-0 water masses, the
+    step-0 column (mobile + immobile) of every quantity, run"""
+    heads, by = table(res)
+    step0 = by.get(0, {})
+    n = case["n"]
+    if any(i not in step0 for i in range(1, n + 1)):
+        return None
+    nmix = res["nmix_after"]
+    st = case["stag"]
+    su = reader_setup(case)
+    stagkin = su["timest"] if nmix < 2 else su["timest"] / nmix
+    ents = []
+    for i in range(1, n + 1):
+        k = i + 1 + n
+        ents.append("%s:%s" % (hexd(step0[i][-1]["water"]), hexd(step0[k][-1]["water"])) if k in step0 else "-")
+    if "exch" in st:
+        sline = "stag %s %s %s %s %s" % (rs(Fraction(st["exch"])), rs(Fraction(st["thm"])), rs(Fraction(st["thim"])), rs(stagkin), " ".join(ents))
+    else:
+        sline = "stagw " + " ".join(",".join(rs(Fraction(x)) for x in st["mix"][str(i)]) if str(i) in st["mix"] else "-"
+                                    for i in range(1, n + 1))
+    text = [setup_line(su), "force %d" % nmix, "reset", sline]
+    for q in QUANT:
+        f = step0[0][-1][q] if 0 in step0 else 0.0
+        la = step0[n + 1][-1][q] if (n + 1) in step0 else 0.0
+        mob = " ".join(hexd(step0[i][-1][q]) for i in range(1, n + 1))
+        imm = " ".join(hexd(step0[i + 1 + n][-1][q]) if (i + 1 + n) in step0 else hexd(0.0) for i in range(1, n + 1))
+        text.append("scol %s %s %s %s ; %s" % (q, hexd(f), hexd(la), mob, imm))
+    text.append("srun %d" % case["shifts"])
+    return text
+
+
+def judge_stagnant(case, res, lines, hist):
+    """stagnant layer: (a) Rxn_mix_map read mid-run vs stagWeights, (b) every mobile and immobile cell x step x quantity
+    vs transportStagStepWith"""
+    probs = []
+    n = case["n"]
+    heads, by = table(res)
+    step0 = by.get(0, {})
+    code_nmix = res["nmix_after"]
+    plan = parse_plan([l for l in lines if l.split()[0] in ("PLAN", "W")][-(n + 1):]) if code_nmix else None
+    # dispersive part: same comparison as for plain columns
+    if code_nmix > 0 and res.get("mix") and plan and len(plan["W"]) == n:
+        cm = res["mix"]["cells"]
+        for i in range(1, n + 1):
+            exp = dict(zip((i - 1, i, i + 1), (float(x) for x in plan["W"][i - 1])))
+            for k in exp:
+                hist["factors_compared"] += 1
+                if k not in cm.get(i, {}) or abs(cm[i][k] - exp[k]) > MIXTOL * max(abs(exp[k]), abs(cm[i][k])):
+                    probs.append(("tie-mix", "stagnant case, cell %d factor of %d: model %r code %r" % (i, k, exp[k], cm.get(i, {}).get(k))))
+    sw = {}
+    for l in lines:
+        w = l.split()
+        if w and w[0] == "SW":
+            sw[int(w[1])] = [unhexd(x) for x in w[2:6]]
+    if "mix" in case["stag"]:
+        sw = {int(i): [float(Fraction(x)) for x in v] for i, v in case["stag"]["mix"].items()}
+    sm = res.get("smix")
+    moved = code_nmix > 0 or case["flow"] != "diffusion_only"
+    if sm is None:
+        if moved:
+            probs.append(("tie-stag", "exchange map not observed"))
+    else:
+        for i, (a, b, c, d) in sorted(sw.items()):
+            k = i + 1 + n
+            exp = {i: {i: a, k: b}, k: {i: d, k: c}}
+            for cell in (i, k):
+                got = sm["cells"].get(cell)
+                if got is None or sorted(got) != sorted(exp[cell]):
+                    probs.append(("tie-stag", "Rxn_mix_map[%d] = %r, model %r" % (cell, got, exp[cell])))
+                    continue
+                for kk in got:
+                    hist["stag_fractions_compared"] += 1
+                    if abs(got[kk] - exp[cell][kk]) > MIXTOL * max(abs(got[kk]), abs(exp[cell][kk])):
+                        probs.append(("tie-stag", "Rxn_mix_map[%d][%d]: model %r code %r" % (cell, kk, exp[cell][kk], got[kk])))
+        # (negative keys are the engine's scratch copies of a MIX used in the defining simulation)
+        extra = {c for c in sm["cells"] if c >= 0} - {c for i in sw for c in (i, i + 1 + n)}
+        if extra:
+            probs.append(("tie-stag", "unexpected Rxn_mix_map entries %s" % sorted(extra)))
+    if not moved:
+        return probs
+    pred = {}
+    for l in lines:
+        w = l.split()
+        if w and w[0] in ("S", "I"):
+            pred[(w[0], int(w[1]), w[2])] = [unhexd(x) for x in w[3:]]
+    shifts = case["shifts"]
+    tol_run = TOL * max(1.0, shifts * (code_nmix + 1) / 30.0)
+    for t in range(1, shifts + 1):
+        if t not in by or any(i not in by[t] for i in range(1, n + 1)):
+            probs.append(("tie-run", "stagnant case, step %d: rows missing" % t))
+            break
+        for q in QUANT:
+            sc = scale_of(q, step0) or 1e-300
+            pm, pi = pred.get(("S", t, q)), pred.get(("I", t, q))
+            if pm is None or pi is None:
+                probs.append(("tie-run", "model gave no prediction for step %d %s" % (t, q)))
+                break
+            for i in range(1, n + 1):
+                hist["cell_values_compared"] += 1
+                got = by[t][i][-1][q]
+                if abs(got - pm[i - 1]) > tol_run * sc:
+                    probs.append(("tie-run", "stagnant case, step %d mobile cell %d %s: model %r code %r" % (t, i, q, pm[i - 1], got)))
+                k = i + 1 + n
+                if k in step0:
+                    if k not in by[t]:
+                        probs.append(("tie-run", "stagnant case, step %d: immobile cell %d not punched" % (t, k)))
+                        continue
+                    hist["cell_values_compared"] += 1
+                    got = by[t][k][-1][q]
+                    if abs(got - pi[i - 1]) > tol_run * sc:
+                        probs.append(("tie-run", "stagnant case, step %d immobile cell %d %s: model %r code %r" % (t, k, q, pi[i - 1], got)))
+    return probs[:12]
+
+
 def is_variant(c):
     return bool(c.get("mcd") or c.get("stag") or c.get("solids") or c.get("implicit"))
 
@@ -707,6 +910,7 @@ def check_variants(ctx, exe, cases, hist):
     inputs = [(str(i), gt.render(c)) for i, c in enumerate(cases)]
     results = run_parallel(ctx, exe, inputs, chunk=2)
     problems = []
+    judged = []
     for i, c in enumerate(cases):
         res = results[str(i)]
         if res.get("crash"):
@@ -720,6 +924,30 @@ def check_variants(ctx, exe, cases, hist):
             hist["variant_mcd_negative_conc_balancing"] += 1
         hist["variant_judged"] += 1
         probs = direct_oracles(c, res, hist, res["nmix_after"], None)
+        judged.append([c, probs, res])
+    # stagnant layer (exchange-factor form): inside the model
+    todo = [(i, j) for i, j in enumerate(judged) if stag_modelled(j[0])]
+    text = []
+    for i, (c, probs, res) in todo:
+        t = stag_model_text(c, res)
+        text.append("mark %d" % i)
+        if t:
+            text += t
+    if todo:
+        lines = ctx.pmodel("transport", "\n".join(text) + "\n", timeout=1800)
+        cur, idx, out = [], None, {}
+        for l in lines + ["M end"]:
+            if l.startswith("M "):
+                if idx is not None:
+                    out[idx] = cur
+                idx = l.split()[1]
+                cur = []
+            else:
+                cur.append(l)
+        for i, (c, probs, res) in todo:
+            hist["stagnant_modelled"] += 1
+            judged[i][1] = probs + judge_stagnant(c, res, out.get(str(i), []), hist)
+    for c, probs, res in judged:
         if probs:
             problems.append((c, probs, res))
     return problems
